@@ -822,7 +822,7 @@ def run_e2e(ctx, host, nrelease, release, tooltags):
 def run(ctx):
     ctx.prove(["Props/C10.vo", "Run/eval_C10.vo"])
     import extractlib; extractlib.tables_tie(ctx, ['MagefilesDirName'])   # literal data of the source re-proved equal to the models' (DESIGN 3.5)
-    extractlib.fn_tie(ctx, ['filter'])   # pure functions translated from the current source, re-proved equal to the models' (tools/notes/Translator.md)
+    extractlib.fn_tie(ctx, ['filter', 'EnvWithGOOS/Constraints'])   # pure functions translated from the current source, re-proved equal to the models' (tools/notes/Translator.md)
     ctx.trusted_base += [
         "harness/unitrun ops magefiles, buildctx (in-process call of mage.Magefiles; report of go/build's build.Default)",
         "checks/c10.py (directory generator, Coq printer, oracle, known-finding classifier)",
